@@ -190,10 +190,10 @@ func cmdCheck(args []string) {
 }
 
 type generated struct {
-	vcs     []*VC
-	byFn    map[string]*VC
-	lemmas  []*Oblig
-	genErrs []string
+	vcs       []*VC
+	byFn      map[string]*VC
+	lemmas    []*Oblig
+	genErrs   []string
 	sweepErrs []string
 }
 
@@ -488,8 +488,48 @@ func (w *World) checkProperty(p, tier string, seed int, g *generated, reg *Regis
 			knownBy[n] = k
 		}
 	}
+	// thorough: every discharged registered obligation is given to all three back ends
+	// (no race). A back end that answers sat where another answers unsat means the
+	// solvers, which are part of the trusted base, cannot be believed on that goal:
+	// the check reports itself broken instead of picking an answer. Timeouts and
+	// unknown are not disagreement.
+	crossN, crossMulti := 0, 0
+	crossSingle, crossDisagree := []string{}, []string{}
+	if tier == "thorough" {
+		var cross []*Oblig
+		for _, oc := range outcomes {
+			if oc.reg && oc.ok && !oc.o.Cover {
+				cross = append(cross, oc.o)
+			}
+		}
+		cr := runAllEsc(cross, filepath.Join(outDir, "cross"), 20, 6, nil, true, nil)
+		for _, r := range cr {
+			crossN++
+			nUnsat, nSat := 0, 0
+			for _, st := range r.v.All {
+				switch st {
+				case "unsat":
+					nUnsat++
+				case "sat":
+					nSat++
+				}
+			}
+			switch {
+			case nSat > 0 && (nUnsat > 0 || byName[r.o.Name].v.Status == "unsat"):
+				crossDisagree = append(crossDisagree, fmt.Sprintf("%s %v", r.o.Name, r.v.All))
+			case nUnsat >= 2:
+				crossMulti++
+			default:
+				crossSingle = append(crossSingle, fmt.Sprintf("%s %v", r.o.Name, r.v.All))
+			}
+		}
+		sort.Strings(crossSingle)
+	}
 
 	var violations, knownLines, undecided, renamed, retired, broken []string
+	for _, d := range crossDisagree {
+		broken = append(broken, "back ends disagree (sat vs unsat) on "+d)
+	}
 	nReg, nRegOK := 0, 0
 	regNamesInProp := []string{}
 	for name, e := range reg.Obligations {
@@ -720,6 +760,13 @@ func (w *World) checkProperty(p, tier string, seed int, g *generated, reg *Regis
 	}
 	if len(samples) == 0 {
 		ev["coverage"].(map[string]interface{})["samples"] = []interface{}{"(no obligation discharged)"}
+	}
+	if tier == "thorough" {
+		cov := ev["coverage"].(map[string]interface{})
+		cov["cross_checked_on_all_backends"] = crossN
+		cov["cross_confirmed_by_two_or_more_backends"] = crossMulti
+		cov["cross_single_backend_only"] = crossSingle
+		cov["cross_backend_disagreements"] = crossDisagree
 	}
 	os.MkdirAll(filepath.Join(verif, "evidence"), 0o755)
 	data, _ := json.MarshalIndent(ev, "", " ")
